@@ -138,6 +138,12 @@ def run_case(seed):
                               nlevels=rng.choice([1, 2, 2, 3]), geo_stream='exact', bf=rng.choice([2, 2, 4]),
                               mesh=rng.choice(['blocks', 'chunky']))
         c07.gen_payload(rng, pf, cn, rng.choice(['keep', 'keep', 'affine', 'const']))
+    r2 = random.Random(seed * 739 + 11)
+    if not big and r2.random() < 0.35:
+        # a field whose name merely CONTAINS the selector words 'all' / 'grid_level'
+        nm = r2.choice(['wall_dist', 'small_scale', 'fall_off', 'my_grid_level_2'])
+        if nm not in pf.fields:
+            pf.fields[r2.randrange(len(pf.fields))] = nm
     keys = c01.reader_keys(pf.fields)
     path = core.scratch_dir(f"c16_{seed}")
     gen.write_plotfile(pf, path)
@@ -161,7 +167,10 @@ def run_case(seed):
         u = Fraction(pf.dx(L)[cn]) / 8
         pos = float(Fraction(pf.geo_low[cn]) + P * u)
         fields = ['all'] if big else rng.choice([[rng.choice(keys)], rng.sample(keys, rng.randint(1, len(keys)))])
-        names = list(keys) if 'all' in fields else list(fields)
+        if not big and len(fields) == 1 and r2.random() < 0.5:
+            fields = fields[0]          # the library also takes one name as a plain string
+            count("fields given as a plain string")
+        names = list(keys) if fields == ['all'] else ([fields] if isinstance(fields, str) else list(fields))
         comps = [keys.index(n) for n in names]
         serial = rng.random() < 0.5
         region = 'near-face' if near_face else ('empty-level' if empty else 'regular')
